@@ -237,7 +237,7 @@ def gen(tier, seed):
         if tier == "thorough":
             seqs += [tuple(menu[q] for q in rng.randint(0, len(menu), 3)) for _ in range(600)] + [tuple(menu[q] for q in rng.randint(0, len(menu), 5)) for _ in range(300)]
         else:
-            seqs = [s for s in seqs if len(s) == 1 or rng.rand() < 0.35]
+            seqs = [s for s in seqs if len(s) == 1 or s[0][0] == "fit" or rng.rand() < 0.3]
             seqs += [tuple(menu[q] for q in rng.randint(0, len(menu), 3)) for _ in range(40)]
         for s in seqs:
             ops = base + list(s)
@@ -258,7 +258,7 @@ READS = {"cost": ["cost_function_value"], "cov": ["total_cov_mat", "total_error"
 
 
 def do_reads(f, kind, which):
-    names = OBS[kind] + ["result_dict"] if which == "all" else [n for n in READS[which] if n in OBS[kind] or (kind == "xy" and "y_" + n in OBS[kind])]
+    names = OBS[kind] + RESULT_OBS + ["result_dict"] if which == "all" else [n for n in READS[which] if n in OBS[kind] or (kind == "xy" and "y_" + n in OBS[kind])]
     for n in names:
         n2 = n if n in OBS[kind] or n == "result_dict" else "y_" + n
         try:
@@ -280,7 +280,7 @@ def run_history(inp, with_reads):
     return f
 
 
-@R.oracle("reads_are_invisible", gen, obligation="read-only properties")
+@R.oracle("reads_are_invisible", gen, obligation="reads_are_invisible (native)")
 def reads_invisible(inp):
     kind = inp["kind"]
     try:
@@ -321,7 +321,7 @@ def canonical(inp):
     return f
 
 
-@R.oracle("no_history", gen, obligation="mutators")
+@R.oracle("no_history", gen, obligation="no_history (native)")
 def no_history(inp):
     kind = inp["kind"]
     if inp["reads"] not in ("all", "cost"):
